@@ -46,7 +46,7 @@ class Operands:
             st = new_stats()
             for c in m.generate(rng, per, tier, st):
                 if 'ins' not in c or 'ops' not in c: continue
-                if any(o[0] in ('rename_axis', 'set_label', 'set_dims') for o in c['ops']): continue    # in-place edits of the operand
+                if any(o[0] in ('rename_axis', 'set_label', 'set_dims', 'set_axis') for o in c['ops']): continue    # in-place edits of the operand
                 stats['operand_source'][src] += 1
                 for o in c['ops']: stats['operand_op'][o[0]] += 1
                 cases.append({'src': src, 'ins': c['ins'], 'ops': c['ops']})
